@@ -62,6 +62,9 @@ class Program:
             b = self.bodies[p]
             for c in self.closures_of.get(p, []):
                 st.append(c)
+            for fnref in b.fn_refs():
+                if fnref in self.bodies:
+                    st.append(fnref)
             for bi, t in b.calls():
                 c = t['callee']
                 if c.get('kind') == 'item' and c.get('local') and c.get('resolved') in self.bodies:
@@ -360,6 +363,31 @@ class Body:
             t = blk['term']
             if t['k'] == 'call':
                 yield i, t
+
+    def fn_refs(self):
+        """function items used as values (e.g. passed to map / map_or_else)"""
+        out = []
+
+        def visit(o):
+            if isinstance(o, dict):
+                if o.get('k') == 'const' and 'fn' in o:
+                    out.append(o['fn'])
+                for v in o.values():
+                    if isinstance(v, (dict, list)):
+                        visit(v)
+            elif isinstance(o, list):
+                for v in o:
+                    visit(v)
+        for i in sorted(self.reachable()):
+            blk = self.blocks[i]
+            if blk['cleanup']:
+                continue
+            for st in blk['stmts']:
+                visit(st['rv'])
+            t = blk['term']
+            if t['k'] == 'call':
+                visit(t['args'])
+        return out
 
     def call_sites(self, pred):
         return [(i, t) for i, t in self.calls() if pred(t)]
